@@ -11,6 +11,9 @@ items, dynamic extra fields) runs on c1 ONLY.  Clauses:
                    vars(field) rendered deeply, declared defaults evaluated, config types and their schemas) unchanged;
   * sibling-item : item configurations of c1 that the operation does not address (other items of the same list, items
                    of another list with the same reused item schema / config type) are unchanged.
+Shared-factory class: the default is a callable that returns THE SAME application-owned object on every call; the four
+clauses above apply (the factory's next result is part of the schema snapshot) and the shared object itself must never be
+mutated by the library at any level (clause source-object); witness_key "shared-factory-default:<kind>/<level>/<op>".
 Cross-assignment class: c2 receives c1's container VALUE OBJECT (`c2.f = c1.f`, dotted, load_tree, constructor keyword)
 and an in-place mutation (top level / nested) through c1 or c2 must not show in the other.  Scoping: `c2.f = c1.f` is an
 operation on BOTH configurations, whereas the property quantifies over "all operation sequences on one of the pair"; so
@@ -66,8 +69,9 @@ class Built:
     def __init__(self, top):
         import cincoconfig
         self.cc = cincoconfig
-        self.top, self.objs = top, {}
+        self.top, self.objs, self.shared = top, {}, []
         self.schema = self.field(top["root"])
+        self.shared_before = [vsnap(o) for o in self.shared]
 
     def resolve(self, fs):
         return self.top["defs"][fs["name"]] if fs["t"] == "ref" else fs
@@ -90,6 +94,10 @@ class Built:
             d = fs["default"]
             if "const" in d:
                 kw["default"] = dec(d["const"])  # ONE object owned by the schema (the "declared default")
+            elif "shared" in d:
+                obj = dec(d["shared"])  # ONE application-owned object handed out by every call of the factory
+                self.shared.append(obj)
+                kw["default"] = (lambda o: (lambda: o))(obj)
             else:
                 kw["default"] = (lambda v: (lambda: dec(v)))(d["fresh"])
         cls = getattr(self.cc, _CLASSES[t])
@@ -327,6 +335,37 @@ SPECS = [
 ]
 
 
+_S, _D, _L, _I = {"t": "string"}, {"t": "dict"}, {"t": "list"}, {"t": "int"}
+# callable defaults that hand out ONE shared application object (kind, field spec, the object), besides fresh / literal
+_SHARED = [
+    ("dict()[nested]", _D, {"k": {"n": 1}, "l": [1]}), ("dict()[empty]", _D, {}),
+    ("dict<str,dict>[nested]", {"t": "dict", "kf": _S, "vf": _D}, {"k": {"n": {"m": 1}}}),
+    ("dict<str,list>[nested]", {"t": "dict", "kf": _S, "vf": _L}, {"k": [1, [2]]}),
+    ("dict<str,any>[nested]", {"t": "dict", "kf": _S}, {"k": {"n": [1]}, "l": [1]}),
+    ("dict<str,int>[flat]", {"t": "dict", "kf": _S, "vf": _I}, {"k": 1}), ("dict<str,int>[empty]", {"t": "dict", "kf": _S, "vf": _I}, {}),
+    ("list()[nested]", _L, [{"a": 1}, [2]]), ("list()[empty]", _L, []),
+    ("list<dict>[nested]", {"t": "list", "item": _D}, [{"a": {"b": 1}}]),
+    ("list<list>[nested]", {"t": "list", "item": _L}, [[1, [2]]]),
+    ("list<any>[nested]", {"t": "list", "item": {"t": "any"}}, [{"a": 1}, [2]]),
+    ("list<int>[flat]", {"t": "list", "item": _I}, [1, 2]), ("list<int>[empty]", {"t": "list", "item": _I}, []),
+]
+SHARED_SPECS = [(kind, {"class": "shared-factory-default", "root": {"t": "schema", "fields": [
+    ["f", dict(fspec, default={"shared": obj})], ["w", {"t": "int", "default": _c(1)}]]}}) for kind, fspec, obj in _SHARED]
+SHARED_SPECS += [(kind + "/" + mode, {"class": "shared-factory-default", "root": {"t": "schema", "fields": [
+    ["f", dict(fspec, default={tag: obj})], ["w", {"t": "int", "default": _c(1)}]]}})
+    for kind, fspec, obj in (_SHARED[0], _SHARED[7]) for mode, tag in (("fresh-factory", "fresh"), ("literal", "const"))]
+
+
+def _culprit(op):
+    """(level, operation name) of the operation a shared-factory finding is attributed to"""
+    if op is None:
+        return "top", "construct"
+    if op["op"] == "mut":
+        name = {"delitem": "del", "iadd": "iadd"}.get(op["meth"], op["meth"])
+        return ("nested" if len(op["nav"]) > 1 else "top"), name
+    return "top", {"setattr": "assign", "setitem": "assign-dotted"}.get(op["op"], op["op"])
+
+
 # ------------------------------------------------------------------------------------------------------------
 # operations on c1
 # ------------------------------------------------------------------------------------------------------------
@@ -562,6 +601,10 @@ def check(top, ops):
         else:
             what = "schema-options"
         out.append((what, "schema", "schema changed at %s: %s" % d))
+    after = [vsnap(o) for o in bt.shared]
+    if after != bt.shared_before:
+        d = first_diff(bt.shared_before, after)
+        out.append(("source-object", ftype("/f"), "the object the default factory hands out was mutated at %s: %s" % d))
     for nav, (item, before) in watch.items():
         after = deep_snapshot(item)
         if after != before:
@@ -660,10 +703,26 @@ OBLIGATIONS = {
     "schema-fields": "core:Schema._fields/frame:C13.field-set-unchanged",
     "schema-options": "core:Schema._fields/frame:C13.field-options-unchanged",
     "sibling-item": "fields.list_field:ListProxy._validate/post:C13.item-configs-share-no-state",
+    "source-object": "core:Field.default/frame:C13.object-returned-by-default-factory-never-mutated",
 }
 
 
 def _report(rec, name, top, ops, findings):
+    if top.get("class"):
+        # attribute to the last operation of the SHORTEST failing prefix (also the replay)
+        for k in range(0, len(ops)):
+            sub = check(top, ops[:k])
+            if sub:
+                ops, findings = ops[:k], sub
+                break
+        level, opname = _culprit(ops[-1] if ops else None)
+        for clause, ftype, msg in findings:
+            rec.violation(obligation=OBLIGATIONS.get((clause, ftype)) or OBLIGATIONS[clause],
+                          what="[%s %s] %s (after %d op(s) on c1, last: %s)" % (top["class"], name, msg, len(ops),
+                                                                               json.dumps(ops[-1])[:120] if ops else "-"),
+                          witness_key="%s:%s/%s/%s" % (top["class"], name, level, opname),
+                          replay=json.loads(json.dumps({"driver": PID, "schema": name, "spec": top, "ops": ops, "clause": clause})))
+        return
     for clause, ftype, msg in findings:
         obligation = OBLIGATIONS.get((clause, ftype)) or OBLIGATIONS[clause]
         label = name if "/" in name else "%s:%s" % (name, ftype)
@@ -681,13 +740,17 @@ def rac(tier, seed):
              "item fields and constant vs. fresh-callable mutable defaults, EMPTY typed/untyped container defaults); alphabet = every assignment / dotted "
              "assignment / map assignment / reset_value / load_tree / loads / in-place list+dict mutation (incl. nested "
              "items and dynamic extras) discovered on the live c1; 4 configurations of the one schema (built before "
-             "c1, after c1, after the mutations) + deep schema snapshot checked per sequence; distinct = (schema, ops); plus cross-"
+             "c1, after c1, after the mutations) + deep schema snapshot checked per sequence; distinct = (schema, ops); plus the same "
+             "histories for 18 single-field schemas whose default is a CALLABLE handing out ONE shared application "
+             "object (untyped / pass-through typed / scalar-typed dict and list, nested, flat and empty; fresh-factory "
+             "and literal variants), where additionally the shared source object itself must never change; plus cross-"
              "configuration assignment cases: 6 all-proxy container kinds (typed flat/nested list+dict) x "
              "source (default | assigned) x transfer of c1's value object into c2 (attribute, dotted, load_tree, "
              "constructor keyword) x in-place mutation (top level / nested) through c1 or c2, other side must not change",
         bound="quick: per schema all sequences of length <= 2 when the alphabet has <= 50 letters (else all of length 1 "
               "+ 1500 seeded of length 2) + 150-250 seeded sequences of length 3; one item explored per list of "
-              "configurations (all items watched); cross-assignment: only the 6 container kinds whose every level is a "
+              "configurations (all items watched); shared-factory schemas: all sequences <= 2 + 60 seeded of "
+              "length 3; cross-assignment: only the 6 container kinds whose every level is a "
               "library-made proxy (untyped pass-through fields and Config items shared by the user are out of scope: "
               "`c2.f = c1.f` operates on both configurations, the property speaks of operations on one of the pair) x "
               "2 sources x 4 transfers x mutation through c1|c2 at top and nested level; thorough: seeded length 3-5 "
@@ -706,6 +769,14 @@ def rac(tier, seed):
             seqs += [tuple(rec.rng.randrange(n) for _ in range(3)) for _ in range(150 if n <= 24 else 250)]
             for seq in seqs:
                 _evaluate(rec, name, top, alphabet, seq)
+        for name, top in SHARED_SPECS:
+            bt = Built(top)
+            alphabet = discover(bt, top, bt.schema())
+            n = len(alphabet)
+            seqs = [q for length in range(0, 3) for q in itertools.product(range(n), repeat=length)]
+            seqs += [tuple(rec.rng.randrange(n) for _ in range(3)) for _ in range(60)]
+            for seq in seqs:
+                _evaluate(rec, top["class"] + ":" + name, top, alphabet, seq, name)
         for case in cross_cases():
             status, msg = check_cross(case)
             rec.case(key=("cross", case["kind"], case["source"], case["transfer"], case["via"], json.dumps(case["op"])),
@@ -727,14 +798,14 @@ def rac(tier, seed):
     return rec.result(exhaustive=False)
 
 
-def _evaluate(rec, name, top, alphabet, seq):
+def _evaluate(rec, name, top, alphabet, seq, report_name=None):
     ops = [alphabet[i] for i in seq]
     findings = check(top, ops)
     rec.case(key=(name, seq), nontrivial=bool(seq),
              sample={"schema": name, "ops": ops, "findings": [f[0] for f in findings]}
              if len(seq) == 2 and rec.evaluations % 1499 == 0 else None)
     if findings:
-        _report(rec, name, top, ops, findings)
+        _report(rec, report_name or name, top, ops, findings)
 
 
 def replay(case):
